@@ -240,6 +240,7 @@ def pipeline(run, note):
             if ev.get("e") in ("Case", "Multi", "CasePanic"):
                 note(run, ev)
     run.exhaustive = True
+    run.extra_cov["exhaustive_adds_per_key"] = 2 if run.tier == "quick" else 3
     run.extra_cov["tlc_enumerated_chains"] = len(cases)
     run.extra_cov["explorer_chains"] = len(xcases)
     run.extra_cov["explorer_multikey_cases"] = len(xmulti)
@@ -250,6 +251,7 @@ def pipeline(run, note):
         "value universes are witness complete for the enumerated atoms (ASSUMEd in the closed model, guarded per case in the trace spec)",
         "the integer reading of a value the code *returns* (Any, serialised bounds) is taken with strconv.ParseInt (Kubernetes' own reader) and clamped to +-10^6",
         "operands near math.MaxInt (the Gt MaxInt special case) are outside the model: TLC's Json integers are 32 bit",
+        "pod-contributed atoms reach ToNodeClaim only through the scheduler's gate Requirements.Compatible(pod, AllowUndefinedWellKnownLabels); pods carry core operators only (In/NotIn non-empty, Exists, DoesNotExist, Gt/Lt with any integer)",
         "In / NotIn with an empty value list (rejected by Kubernetes itself) are checked for their value sets only, not for their treatment of an absent label",
     ]
 
